@@ -158,12 +158,16 @@ func (st *State) restoreLocals(name string, before *Term) {
 // Scratch executions (dry runs over loop bodies, inference rounds) re-use allocation numbers: objects registered
 // during them are dropped afterwards, escapes of older objects found by them are kept.
 type localsMark struct {
-	keys  map[*Term]bool
-	order int
+	keys   map[*Term]bool
+	order  int
+	frozen map[*Term]bool
 }
 
 func (vc *VC) markLocals() localsMark {
-	m := localsMark{keys: map[*Term]bool{}, order: len(vc.localOrder)}
+	m := localsMark{keys: map[*Term]bool{}, order: len(vc.localOrder), frozen: map[*Term]bool{}}
+	for r := range vc.frozen {
+		m.frozen[r] = true
+	}
 	for r := range vc.localObjs {
 		m.keys[r] = true
 	}
@@ -171,6 +175,11 @@ func (vc *VC) markLocals() localsMark {
 }
 
 func (vc *VC) resetLocals(m localsMark) {
+	for r := range vc.frozen {
+		if !m.frozen[r] {
+			delete(vc.frozen, r)
+		}
+	}
 	for r := range vc.localObjs {
 		if !m.keys[r] {
 			delete(vc.localObjs, r)
